@@ -48,6 +48,9 @@ CLAIMED = {
  "C12": ("decision tables and operation sequences over uninterpreted Merlin/Ristretto terms; error-discipline dominance rule",
          "Decides the structure of sr25519 against the schnorrkel definition on all paths: signing builds proto-name \"Schnorr-sig\", sign:pk(pk), a witness from the transcript RNG re-keyed under \"signing\" with the nonce seed and finalised with the caller's rng, R = compress([r]B), sign:R(R), challenge sign:c over 64 bytes reduced wide, s = c*key + r, and errs exactly when the RNG construction or the witness draw fails; deriveVerifyChallengeScalar is the same challenge term over the signature's R; verification rejects exactly on a missing key, missing scalar or undecodable R and otherwise tests IsIdentity([c](-A) + [s]B - R) with those roles; signing contexts and byte/hash transcripts commit exactly the stated labels and the digest actually produced (a digest written into a too-small fixed buffer is modelled); Signature, SecretKey and KeyPair decoders accept exactly marker bit set, S minimal and canonical with bit 255 cleared, canonical key scalar, matching key pair and the stated lengths, leaving the stated state on success and on failure; marshalling sets the marker bit on every path; the batch verifier's entry admission equals single verification's, every path of doInit writes canBeValid (slots are reused), Add appends a freshly initialised entry and ORs anyInvalid, VerifyBatchOnly aborts exactly on an empty batch or anyInvalid. The delinearised batch equation and the underlying arithmetic are not decided.",
          "DESIGN.md §4 C12", "Merlin operations are assumed not to modify their label/data arguments (merlinWrites table with reason; framing of the operations is C13)", ["edt", "elen"]),
+ "C11": ("decision tables over uninterpreted field-operation terms, receiver-state rules, literal constants vs oracle",
+         "Decides the decision structure of Ristretto255 decoding against RFC 9496 section 4.3.1 on all paths and in three configurations: SetCompressed accepts exactly when the input equals the re-encoding of the same bytes (canonical), s is non-negative, the inverse square root reports a square, t is non-negative and y is non-zero, and writes nothing to the receiver on rejection; CompressedRistretto.SetBytes / CompressedEdwardsY.SetBytes accept exactly 32 bytes; Equal is the OR of the two cross-product equalities; SetUniformBytes takes exactly 64 bytes and adds the Elligator images of the halves [0:32] and [32:64]; UnmarshalBinary of the four point types errs on a wrong length and leaves the identity (ERR-iii); the RFC 9496 constants d, 1-d^2, (d-1)^2, sqrt(ad-1), 1/sqrt(a-d), sqrt(-1) and the base point encodings are checked by value in both radices. Numeric correctness of InvSqrt, coset invariance of the encoding and the Elligator map are not decided.",
+         "DESIGN.md §4 C11", "atoms of SetCompressed are matched by the leading structure of their operation terms", ["edt", "econst", "elen"]),
 }
 
 PENDING_REASON = "check under construction (DESIGN.md section 7 build order); not claimed yet"
